@@ -319,6 +319,16 @@ func (e *Exec) applyContract(st *State, fr *Frame, fn *ssa.Function, ct *Contrac
 	} else if fn == e.Root && e.rootEnv != nil {
 		e.Notes = append(e.Notes, "recursive call without `decreases`: termination of the recursion not decided")
 	}
+	detKey := ""
+	if ct.Deterministic {
+		detKey = e.detKey(fn, args)
+		if detKey != "" {
+			e.UsedIntrinsics["assumed deterministic (equal arguments give equal results): "+fnDisplay(fn)] = true
+			if m, ok := st.Ghost[detKey].(*detMemo); ok {
+				return []callRes{{st, packResults(e.detReuse(st, m))}}
+			}
+		}
+	}
 	old := st.clone()
 	objMark := e.nextObj
 	// frame
@@ -371,7 +381,61 @@ func (e *Exec) applyContract(st *State, fr *Frame, fn *ssa.Function, ct *Contrac
 			}
 		}
 	}
+	if detKey != "" {
+		m := &detMemo{results: results, roots: map[int]Val{}}
+		for _, r := range results {
+			if sl, ok := r.(*SliceVal); ok && sl.Obj != 0 {
+				m.roots[sl.Obj] = e.root(st, sl.Obj)
+			}
+		}
+		if st.Ghost == nil {
+			st.Ghost = map[string]Val{}
+		}
+		st.Ghost[detKey] = m
+	}
 	return []callRes{{st, packResults(results)}}
+}
+
+// detMemo: results of an earlier call of a `deterministic` function on this path (slice results with the contents
+// they had when returned).
+type detMemo struct {
+	results []Val
+	roots   map[int]Val
+}
+
+// detKey identifies a call by its argument values; only scalar and string arguments (immutable) qualify.
+func (e *Exec) detKey(fn *ssa.Function, args []Val) string {
+	k := "det:" + fn.String()
+	for _, a := range args {
+		switch x := a.(type) {
+		case *Term:
+			k += fmt.Sprintf("|t%d", x.ID())
+		case *StringVal:
+			k += fmt.Sprintf("|s%p.%d.%d", x.C, x.Off.ID(), x.Len.ID())
+		case *ArrayVal:
+			// array values are immutable: the same value object is the same array
+			k += fmt.Sprintf("|a%p", x)
+		default:
+			return ""
+		}
+	}
+	return k
+}
+
+func (e *Exec) detReuse(st *State, m *detMemo) []Val {
+	out := make([]Val, len(m.results))
+	for i, r := range m.results {
+		if sl, ok := r.(*SliceVal); ok && sl.Obj != 0 {
+			om := *e.metaAll[sl.Obj]
+			id := e.newObj(st, m.roots[sl.Obj], &om)
+			ns := *sl
+			ns.Obj = id
+			out[i] = &ns
+			continue
+		}
+		out[i] = r
+	}
+	return out
 }
 
 // defineFromEnsures: a top-level conjunct `eq(L, R)` of a postcondition, where L is a slice over an object
